@@ -1455,4 +1455,26 @@ theorem step_invD {s s' : State} {op : Op} (hL : LInv s) (hC : CInvD D s) (hext 
     · exact v2SurplusClose_inv hL hC h
     · exact v2DebtClose_inv hL hC h
 
+/-! ## the two closes after the proposed repair -/
+
+theorem repairedSurplusClose_inv {s s' : State} {app asset u : Nat} {lot : Int} (hL : LInv s) (hC : CInvD D s)
+    (h : stepRepaired s (.v2SurplusClose app asset u lot) = some s') : LInv s' ∧ CInvD D s' ∧ Delta s s' := by
+  simp only [stepRepaired] at h
+  split at h; · simp at h
+  rename_i b1 hs1
+  split at h; · simp at h
+  rename_i b2 hs2
+  obtain ⟨_, _, hb1⟩ := Bank.send_spec hs1
+  obtain ⟨_, _, hb2⟩ := Bank.send_spec hs2
+  simp at h; subst h
+  have hl : ∀ d, b2.bal .locker d = s.bank.bal .locker d := by intro d; rw [hb2, hb1]; simp
+  have hc : ∀ d, b2.bal .collector d = s.bank.bal .collector d := by intro d; rw [hb2, hb1]; simp
+  refine ⟨⟨hL.idsLe, hL.netNonneg, hL.depEq, ?_, hL.ids, hL.depNonneg⟩, ⟨hC.nonneg, ?_⟩, Delta.of_eq rfl hc⟩
+  · intro a; have := hL.custody a; unfold bal at this ⊢; show _ ≤ b2.bal _ _; rw [hl]; exact this
+  · intro a; have := hC.custody a; unfold bal at this ⊢; show _ ≤ b2.bal _ _ + _; rw [hc]; exact this
+
+theorem repairedDebtClose_inv {s s' : State} {app asset : Nat} {c d : Int} (hL : LInv s) (hC : CInvD D s)
+    (h : stepRepaired s (.v2DebtClose app asset c d) = some s') : LInv s' ∧ CInvD D s' ∧ Delta s s' :=
+  auctionReturn_inv (app := app) (asset := asset) (x := d) hL hC h
+
 end Comdex.Locker
